@@ -5,7 +5,8 @@ server, the suites each side enables, whether a man in the middle damaged a Fini
 whether the server's cache was lost, whether the harness copied a stale session) and what was
 observed (results and DidResume on both sides, session identifiers in the hello messages,
 negotiated suite, peer identity at the client, master secret in use, whether the Finished
-values are new, and the outcome of the same two configurations without any cache).
+values are new, the outcome of the same two configurations without any cache, and the peer
+identity the SERVER reports — the client certificate in its ConnectionState).
 
 Clauses (each returns the first violating connection):
   1. resumedOnlyIf  – a side reports resumption only if the client offered an identifier that
@@ -17,7 +18,11 @@ Clauses (each returns the first violating connection):
                       exactly like the cache-less handshake of the two configurations
                       (same success, same suite); a resumed one completes on both sides.
   4. sameIdentity   – the client's peer identity is the identity of the server it talks to;
-                      for a resumed connection it equals the original's.
+                      for a resumed connection it equals the original's. On the server side: a
+                      resumed connection reports the client identity (certificate or none) that
+                      the server reported for the original connection, whatever client
+                      authentication policy is configured now; a full handshake reports nothing
+                      or the certificate the client is configured with.
   5. freshKeys      – Finished values never repeat; a resumed connection uses the master secret
                       of the original connection; a full one a master secret never seen before.
   6. freshIds       – a new session's identifier is 32 bytes long and differs from every
@@ -38,6 +43,8 @@ structure Desc where
   mitm       : Bool     -- a Finished flight of this connection is damaged in transit
   serverLost : Bool     -- the server's cache is lost before this connection
   staleCopy  : Bool     -- the harness copies another destination's session under this destination first
+  auth       : Nat := 0              -- the server's client-authentication policy (position in the enumeration)
+  ccert      : Option String := none -- the certificate the client is configured with (its name)
 deriving Repr
 
 structure Seen where
@@ -53,6 +60,7 @@ structure Seen where
   ms     : Option String
   fresh  : Option Bool
   ctl    : Option Nat     -- suite of the cache-less control handshake; none = it fails
+  speer  : Option String := none  -- the client identity the server reports when it completes ("n" = no certificates)
 deriving Repr
 
 abbrev Conn := Desc × Seen
@@ -126,6 +134,12 @@ def checkOne (all before : List Conn) (i : Nat) (d : Desc) (s : Seen) : Option (
       | some (_, os) => os.peer.isSome && os.peer != s.peer
       | none => false) then
     some ("identity", s!"connection {i}: resumed connection has another peer identity than the original")
+  else if s.sOk && s.sRes == some true && (match orig with
+      | some (_, os) => os.speer.isSome && os.speer != s.speer
+      | none => false) then
+    some ("identity-server", s!"connection {i}: the server of the resumed connection reports client identity {s.speer.getD "-"}, not the one of the original connection")
+  else if s.sOk && s.sRes == some false && !(s.speer == some "n" || (s.speer.isSome && s.speer == d.ccert)) then
+    some ("identity-server", s!"connection {i}: the server reports client identity {s.speer.getD "-"} after a full handshake, the client is configured with {d.ccert.getD "n"}")
   -- 5. fresh keys
   else if s.cOk && s.fresh != some true then
     some ("stale-keys", s!"connection {i}: Finished values repeat those of an earlier connection")
